@@ -62,7 +62,10 @@ def _space(case):
     import itertools
 
     out, seen, sidx = [], set(), -1
+    exact = case.get("exact")   # layers by exact edit counts: no (schema, table) pair is evaluated by two layers
     for i in range(case["ks"] + 1):
+        if exact and i not in exact[0]:
+            continue
         for scomb in itertools.combinations(sed, i):
             sidx += 1
             if sidx % case["shard"][1] != case["shard"][0]:
@@ -74,6 +77,8 @@ def _space(case):
                 continue
             st = [E.schema_edit_target(e) for e in scomb]
             for j in range(case["kd"] + 1):
+                if exact and (i, j) not in [tuple(x) for x in exact[1]]:
+                    continue
                 for dcomb in itertools.combinations(ded, j):
                     if (i + j) >= 3 and not E._related(st + [E.data_edit_target(e) for e in dcomb]):
                         continue
@@ -198,7 +203,10 @@ def _clauses(cc):
         if r1 != r2:
             what = "columns" if [c[0] for c in r1] != [c[0] for c in r2] else ("dtypes" if [c[1] for c in r1] != [c[1] for c in r2] else "values")
             out.append(("parsed_output_equal", what, f"pandas={r1} polars={r2}"))
-    if pd_["outcome"] == "SchemaErrors":
+    parsing = bool(spec.get("coerce") or spec.get("add_missing_columns") or spec.get("strict") == "filter"
+                   or any(c.get("coerce") or c.get("default") is not None for c in spec["cols"]))
+    n_edits = sum(len(x) for x in cc.get("edits", [[], []]))
+    if pd_["outcome"] == "SchemaErrors" and (parsing or n_edits <= 2):
         # history of length 2 on the SAME schema objects: after the rejected table, a table that conforms once parsed (numeric
         # strings where the schema coerces).  A backend that leaves something behind in its schema after a failure now disagrees.
         t2 = E.BASES["frame"][1]
@@ -230,13 +238,16 @@ def oracle(cc):
 
 
 def plan(tier, seed):
-    combos = [(1, 1, 8), (1, 2, 32), (2, 1, 48)] if tier == "quick" else [(1, 1, 8), (1, 2, 32), (2, 1, 64), (2, 2, 256)]
+    # (ks, kd, shards, exact (schema, data) edit counts of the layer)
+    combos = [(1, 1, 8, [(0, 0), (1, 0), (0, 1), (1, 1)]), (1, 2, 32, [(0, 2), (1, 2)]), (2, 1, 48, [(2, 0), (2, 1)])]
+    if tier != "quick":
+        combos.append((2, 2, 256, [(2, 2)]))
     cases = []
-    for ks, kd, nsh in combos:
+    for ks, kd, nsh, layer in combos:
         for sh in range(nsh):
-            cases.append({"ks": ks, "kd": kd, "shard": [sh, nsh]})
+            cases.append({"ks": ks, "kd": kd, "shard": [sh, nsh], "exact": [sorted({i for i, _ in layer}), layer]})
     return {"cases": cases, "exhaustive": True,
-            "bounds": {"edits": [c[:2] for c in combos], "base": "frame (int, str, float columns; default index)", "rows": "<= 4"},
+            "bounds": {"edits": [c[3] for c in combos], "base": "frame (int, str, float columns; default index)", "rows": "<= 4"},
             "rule": "state = distinct backend-neutral (schema, table); both backends validate lazily; non-trivial = schema differs from the base or errors were collected"}
 
 
